@@ -59,6 +59,9 @@ pub enum Op {
     Batch { puts: Vec<u8>, dels: Vec<u8> },
     /// several puts, one seqno each (layout builder)
     MultiPut { ks: Vec<u8> },
+    /// two writers, the later one overtakes: seqnos s1 < s2 are allocated for (k1, k2), k2@s2 is
+    /// inserted first, then k1@s1, then both are published
+    PutSwapped { k1: u8, k2: u8 },
     MultiDel { ks: Vec<u8> },
     /// put + rotate + flush (watermark 0): one table per write
     PutF { k: u8, big: bool },
@@ -116,6 +119,7 @@ impl Op {
             | Op::WDel { .. }
             | Op::Batch { .. }
             | Op::MultiPut { .. }
+            | Op::PutSwapped { .. }
             | Op::MultiDel { .. }
             | Op::PutIdx { .. }
             | Op::DelIdx { .. }
@@ -138,6 +142,7 @@ impl Op {
             Op::WDel { .. } => "WDel",
             Op::Batch { .. } => "Batch",
             Op::MultiPut { .. } => "MultiPut",
+            Op::PutSwapped { .. } => "PutSwapped",
             Op::MultiDel { .. } => "MultiDel",
             Op::PutF { .. } => "PutF",
             Op::DelF { .. } => "DelF",
@@ -180,6 +185,7 @@ impl Op {
             Op::WDel { k } => format!("W({k})"),
             Op::Batch { puts, dels } => format!("B(p{puts:?},d{dels:?})"),
             Op::MultiPut { ks } => format!("MP{ks:?}"),
+            Op::PutSwapped { k1, k2 } => format!("Pswap({k1},{k2})"),
             Op::MultiDel { ks } => format!("MD{ks:?}"),
             Op::PutF { k, big } => format!("PF{}({k})", if *big { "big" } else { "" }),
             Op::DelF { k } => format!("DF({k})"),
